@@ -330,6 +330,9 @@ func truncate(s string, n int) string {
 
 func (r *Run) writeReplay(key, msg string, witness any) string {
 	dir := filepath.Join(VerifDir(), "replays", r.Prop)
+	if d := os.Getenv("VERIF_EVIDENCE_DIR"); d != "" {
+		dir = filepath.Join(d, "replays", r.Prop) // scratch-repo runs keep their witnesses apart
+	}
 	os.MkdirAll(dir, 0o755)
 	sum := sha256.Sum256([]byte(key))
 	path := filepath.Join(dir, hex.EncodeToString(sum[:6])+".json")
